@@ -203,6 +203,8 @@ class SymEnv:
         if isinstance(st, ast.Expr) and isinstance(st.value, ast.Call):
             self.calls.append(norm(st.value))
             return
+        if isinstance(st, ast.Pass):
+            return
         raise AnalysisError(f"symbolic execution: statement outside grammar: {norm(st)[:70]}")
 
     def run(self, body) -> "SymEnv":
